@@ -180,6 +180,10 @@ def write_evidence(prop, mod, tier, seed, results, audits, wall, violations, und
         "violations": violations,
     }
     os.makedirs(os.path.join(VERIF, "evidence"), exist_ok=True)
+    # evidence is only (re)written by a full run against /repo itself: partial (--only) runs and runs against another tree
+    # (XRLV_REPO, used for the seeded changes) write next to the scratch files instead
+    if os.environ.get("XRLV_REPO") and os.path.realpath(os.environ["XRLV_REPO"]) != "/repo":
+        partial = True
     dest = os.path.join(VERIF, "evidence", prop + ".json") if not partial else os.path.join("/tmp", "xrlv-partial-evidence-%s.json" % prop)
     with open(dest, "w") as f:
         json.dump(ev, f, indent=1)
